@@ -13,6 +13,8 @@ def check(ctx):
     ctx.sub(s1_s2_s3_execute)
     ctx.sub(s2_handler)
     ctx.sub(s4_fee_models)
+    from . import c01
+    ctx.sub(c01.s2_deltas)          # what the portfolio is debited is price x quantity plus that commission, unmodified (never negated for a sell)
 
 
 def s1_s2_s3_execute(ctx):
